@@ -132,11 +132,16 @@ func main() {
 	loadS := time.Since(t0).Seconds()
 
 	// type of errors.errorString for opaque errors
-	var errStrT types.Type
+	var errStrT, bigIntT types.Type
 	for _, p := range prog.AllPackages() {
 		if p.Pkg.Path() == "errors" {
 			if tn, ok := p.Members["errorString"].(*ssa.Type); ok {
 				errStrT = tn.Type()
+			}
+		}
+		if p.Pkg.Path() == "math/big" {
+			if tn, ok := p.Members["Int"].(*ssa.Type); ok {
+				bigIntT = tn.Type()
 			}
 		}
 	}
@@ -161,7 +166,7 @@ func main() {
 			}
 			c := buildConfig(s, *tier)
 			r := &Run{cfg: c, prog: prog, pkg: mainPkg, entry: fn, obMap: map[string]*Obligation{}, reachMap: map[string]*ReachRec{},
-				incSet: map[string]bool{}, violSeen: map[string]int{}, errorStringT: errStrT, funcIndex: funcIndex, expectReach: s.reach}
+				incSet: map[string]bool{}, violSeen: map[string]int{}, errorStringT: errStrT, bigIntT: bigIntT, funcIndex: funcIndex, expectReach: s.reach}
 			r.res = &EntryResult{Entry: s.name, Package: mainPkg.Pkg.Path(), Options: s.opts, Aborted: map[string]int{}, AbortSamples: map[string]string{},
 				FuncsReal: map[string]int{}, FuncsStubbed: map[string]int{}, Panics: map[string]int{}, Events: map[string]int{}, Bounds: map[string]int{}}
 			r.res.Mode = "bv"
@@ -223,6 +228,8 @@ func buildConfig(s *entrySpec, tier string) *Config {
 	geti("maxsteps", &c.MaxSteps)
 	geti("nondetbytes", &c.NondetBytes)
 	geti("maxdepth", &c.MaxDepth)
+	c.InitBudget = 20000
+	geti("initbudget", &c.InitBudget)
 	var tb, ot, ft int
 	geti("timebudget", &tb)
 	if tb > 0 {
